@@ -14,11 +14,11 @@ LEVEL = "model_checking"
 
 
 def gen(R, maxdev, sim):
-    cfg = "INIT Init\nNEXT Next\nINVARIANT EmitLayout\nCONSTANTS MaxDev = %d\n MaxDepth = 3\n" % maxdev
+    cfg = "INIT Init\nNEXT Next\nINVARIANT EmitLayout\nCONSTANTS MaxDev = %d\n MaxDepth = 3\n StartSym = \"prog\"\n" % maxdev
     res = R.tlc("ShellGen", cfg, name="ShellGen-layout-dev%d" % maxdev, timeout=3000)
     cases = shellgen._cases(res)
     if sim:
-        cfg = "INIT Init\nNEXT Next\nINVARIANT EmitLayout\nCONSTANTS MaxDev = 8\n MaxDepth = 4\n"
+        cfg = "INIT Init\nNEXT Next\nINVARIANT EmitLayout\nCONSTANTS MaxDev = 8\n MaxDepth = 4\n StartSym = \"prog\"\n"
         res = R.tlc("ShellGen", cfg, simulate="num=%d" % sim, depth=800, workers=8, name="ShellGen-layout-sim", timeout=3000)
         cases += shellgen._cases(res)
     return shellgen.dedup(cases)
